@@ -17,9 +17,9 @@ IsEvent(a) == l <= Len(Trace) /\ Trace[l].act = a /\ l' = l + 1
 MsgOf(r) == [kind |-> r.kind,
              ev |-> [v \in Vals |-> r.ev[v]],
              sigs |-> {[val |-> r.sigs[i].val, key |-> r.sigs[i].key,
-                        ver |-> IF r.sigs[i].valid THEN <<r.elected, r.fees>> ELSE <<-1, FALSE>>] : i \in DOMAIN r.sigs},
+                        ver |-> IF r.sigs[i].valid THEN <<r.elected, r.fees, 0>> ELSE <<-1, FALSE, 0>>] : i \in DOMAIN r.sigs},
              ests |-> [v \in Vals |-> r.ests[v]],
-             elected |-> r.elected, fees |-> r.fees, pad |-> r.pad, err |-> r.err, added |-> r.added]
+             elected |-> r.elected, fees |-> r.fees, pad |-> r.pad, err |-> r.err, added |-> r.added, asg |-> 0]
 Obs(o) ==
   /\ msgs' = [id \in {o.msgs[i].id : i \in DOMAIN o.msgs} |-> MsgOf(o.msgs[CHOOSE i \in DOMAIN o.msgs : o.msgs[i].id = id])]
   /\ refHeight' = o.refHeight
@@ -28,7 +28,7 @@ Obs(o) ==
 
 \* model view of a message: keys are abstracted to <<val, keyver>> in the model, to address prefixes in the trace;
 \* compare everything except the key identity
-Abs(m) == [m EXCEPT !.sigs = {[val |-> s.val, ver |-> s.ver] : s \in m.sigs}]
+Abs(m) == [m EXCEPT !.sigs = {[val |-> s.val, ver |-> <<s.ver[1], s.ver[2]>>] : s \in m.sigs}, !.asg = 0]
 AbsMsgs(ms) == [id \in DOMAIN ms |-> Abs(ms[id])]
 
 Gone == DOMAIN msgs \ DOMAIN msgs'
@@ -90,6 +90,14 @@ TrReRegister == IsEvent("ReRegister") /\ LET e == Trace[l] IN
   /\ Always(e)
   /\ Report("C06.ReRegisterKeepsQueue", msgs' = msgs)
 
+TrReassign == IsEvent("Reassign") /\ LET e == Trace[l] IN
+  /\ Obs(e.obs) /\ res' = e.res /\ Keep /\ UNCHANGED sigok
+  /\ Always(e)
+  /\ Report("C04.ReassignKeepsElection", \A id \in DOMAIN msgs : id \in DOMAIN msgs' /\ msgs'[id].elected = msgs[id].elected
+                                            /\ msgs'[id].ests = msgs[id].ests /\ msgs'[id].ev = msgs[id].ev)
+  /\ Conf("Reassign", AbsMsgs(msgs') = AbsMsgs([id \in DOMAIN msgs |-> IF msgs[id].kind = "slc" /\ ~msgs[id].pad /\ ~msgs[id].err
+                                                                       THEN [msgs[id] EXCEPT !.sigs = {}] ELSE msgs[id]]))
+
 TrAdvance == IsEvent("Advance") /\ LET e == Trace[l] IN
   /\ Obs(e.obs) /\ res' = e.res /\ Keep /\ UNCHANGED sigok
   /\ Always(e)
@@ -120,6 +128,6 @@ TrEndBlock == IsEvent("EndBlock") /\ LET e == Trace[l]  m == EndBlockResult
   /\ Conf("EndBlock.jailed", jailed' \subseteq m.jailed)
 
 TraceInit == Init /\ l = 1 /\ sigok = TRUE
-TraceNext == TrInit \/ TrPut \/ TrSign \/ TrEstimate \/ TrEvidence \/ TrSetPAD \/ TrSetErr \/ TrReRegister \/ TrAdvance \/ TrEndBlock
+TraceNext == TrInit \/ TrPut \/ TrSign \/ TrEstimate \/ TrEvidence \/ TrSetPAD \/ TrSetErr \/ TrReRegister \/ TrReassign \/ TrAdvance \/ TrEndBlock
 TraceAccepted == TLCGet("stats").diameter - 1 = Len(Trace)
 =============================================================================
